@@ -126,6 +126,10 @@ def generalise_value(self, M, vals, stores, loc, path, leaves, force, tid_hint=N
             return v0
         x = fresh('g')
         leaves.append(Leaf(x, loc, path, 'int', 'int', None, [v.e for v in vals]))
+        if tid_hint is not None and self.P.types[tid_hint].get('kind') == 'int':
+            # the leaf is a struct field of integer type: whatever the loop does, the stored value is one of the type
+            lo, hi = self.int_range(self.P.types[tid_hint])
+            M.store.add_range(V(x), lo, hi)
         return IntV(V(x))
     if t is PtrV:
         if not differs(lambda v: v.off):
@@ -154,8 +158,14 @@ def generalise_value(self, M, vals, stores, loc, path, leaves, force, tid_hint=N
         if v0.fields is None:
             return v0
         fs = []
+        ftys = None
+        if not isinstance(v0.tid, tuple):
+            ty = self.P.types[v0.tid]
+            if ty.get('kind') == 'adt' and ty.get('adt_kind') in ('struct', 'enum') and v0.variant is not None and v0.variant < len(ty.get('variants', [])):
+                ftys = [f['ty'] for f in ty['variants'][v0.variant]['fields']]
         for i in range(len(v0.fields)):
-            fs.append(generalise_value(self, M, [v.fields[i] for v in vals], stores, loc, path + (('f', i),), leaves, force))
+            fs.append(generalise_value(self, M, [v.fields[i] for v in vals], stores, loc, path + (('f', i),), leaves, force,
+                                       tid_hint=ftys[i] if ftys and i < len(ftys) else None))
         return AdtV(v0.tid, v0.variant, fs)
     if t is UnionV:
         if forced_here:
